@@ -130,7 +130,8 @@ def entails_text(st, env, text):
 class FnSpec:
     def __init__(self, pre=(), extents=None, post=(), structs=None, ret_signed=None,
                  check_inv=True, nonnull=True, cstr=None, notes=None, frame=None, ctor=False,
-                 dtor=False):
+                 dtor=False, setup=None):
+        self.setup = setup
         self.ctor = ctor
         self.dtor = dtor
         self.pre = list(pre)
@@ -245,6 +246,9 @@ class ContractRun:
         for (name, o, sspec, fs, sname) in struct_params:
             if sspec is None and fs.get('__ext__'):
                 o.size = env.lin(ast.parse(fs['__ext__'], mode='eval'))
+        if spec.setup:
+            names = [p['name'] or ('arg%d' % n) for n, p in enumerate(fn.params)]
+            spec.setup(self, st, env, names, args, struct_params)
         # assume invariants and preconditions
         states = [st]
         for (name, o, sspec, fs, sname) in struct_params:
